@@ -35,6 +35,10 @@ mod kernel;
 mod netstat;
 mod rule;
 pub mod shim;
+#[cfg(turmoil_verif)]
+mod verif;
+#[cfg(turmoil_verif)]
+pub use crate::verif::{verif_counts, verif_dump, verif_set_ephemeral_range};
 
 use crate::dns::Dns;
 pub use crate::dns::{ToIpAddr, ToIpAddrs};
